@@ -113,7 +113,7 @@ CLAIMED = {
         "fields, distinct, named metadata: meta_roundtrip), M-Core-3 (FUNCTION DEFINITIONS: any number of parameters and named / numbered blocks, 97 instruction and "
         "terminator rows — the integer and floating-point binary operations, icmp / fcmp with every predicate, load / store / alloca with an optional alignment, select, the 13 conversions, phi, freeze, "
         "fneg, the vector element instructions, extractvalue / insertvalue with index paths, getelementptr (typed through the C07 model), call (void and value, any argument list), va_arg, ret, br, conditional br, unreachable, switch (its cases on lines of their own), invoke / landingpad (cleanup, catch and filter clauses) / resume, the atomic memory instructions (load / store atomic, fence, cmpxchg, atomicrmw with their orderings), indirectbr and the funclet instructions (catchswitch, catchpad, cleanuppad, catchret, cleanupret; the kind of the definition a pad reference names is checked: core3_pad_kinds) — over local values incl. forward references, "
-        "global variables and functions of the enclosing module (@name operands: whole_global_refs_resolve) "
+        "global variables and functions of the enclosing module (@name operands: whole_global_refs_resolve); function headers with their keywords (linkage … calling convention, return attributes), parameter attributes, the variadic marker and the clauses behind the parameter list; global variables with their optional keywords (linkage, preemption, visibility, DLL storage class, thread-local model, unnamed_addr, externally_initialized: whole_global_keywords_checked) "
         "and nested constants; generic row-table reader proved to invert the printer, translation = asm/local.go: numbering, duplicates, undefined uses, label kinds, operand "
         "retyping), M-Core (opaque type definitions + integer globals: all names, widths, values, both literal "
         "notations) and M-Core-2 (identified struct type definitions with bodies of arbitrarily nested types; global variables / constants of ANY type initialised by integers "
@@ -145,7 +145,7 @@ CLAIMED = {
    text="The operand/successor table of all 54 instruction and 12 terminator types is regenerated on every run (types listed from the source by go/ast; a live instance of each "
         "analysed by reflection with slots identified by address) and the Lean kernel decides on the complete table that Operands() exposes exactly one live slot per value "
         "the instruction uses, that Succs() is exactly LLVM's successor list in order, and that it follows retargeting. Dynamic oracle: writing a fresh value through each "
-        "slot of constructor-built instructions changes the printed instruction exactly there. Every row is analysed in four shapes (distinct values, sparse helper lists, one value in every slot, the instruction itself in every slot). Two defects were repaired by fix commits.",
+        "slot of constructor-built instructions changes the printed instruction exactly there. Every row is analysed in six shapes (arguments wrapped in *ir.Arg and empty top-level lists included; distinct values, sparse helper lists, one value in every slot, the instruction itself in every slot). Two defects were repaired by fix commits.",
    note="Lean kernel (decide +kernel); trusted: table generator (go/ast + reflection analyser), hand-written specSuccs, harness.",
    technique="Lean 4 kernel decision over a table regenerated from source + differential oracle on the implementation", design="§4 C15"),
  "C10": dict(
